@@ -683,8 +683,14 @@ macro_rules! directed_flavour {
             }
             fn iterate(n: &Self::Node, kind: IterKind, f: &mut dyn FnMut(&Self::Edge) -> bool) {
                 match kind {
-                    IterKind::Out => { let mut it = n.iter_out(); check_hint(it.size_hint()); while let Some(e) = it.next() { if !f(&e) { break; } check_hint(it.size_hint()); } }
-                    IterKind::In => { let mut it = n.iter_in(); check_hint(it.size_hint()); while let Some(e) = it.next() { if !f(&e) { break; } check_hint(it.size_hint()); } }
+                    IterKind::Out => { // (a loop whose list shrank below its position is finished with count(): no panic, nothing invented)
+                        let mut it = n.iter_out(); check_hint(it.size_hint()); let mut yields = 0usize;
+                        while let Some(e) = it.next() { yields += 1; if !f(&e) { break; } check_hint(it.size_hint());
+                            let len = n.out_degree(); if len < yields && (len + yields) % 2 == 0 { let rest = it.count(); assert!(rest <= len, "count() = {} on an edge iterator whose list has {} entries (after {} yields)", rest, len, yields); break; } } }
+                    IterKind::In => { // (a loop whose list shrank below its position is finished with count(): no panic, nothing invented)
+                        let mut it = n.iter_in(); check_hint(it.size_hint()); let mut yields = 0usize;
+                        while let Some(e) = it.next() { yields += 1; if !f(&e) { break; } check_hint(it.size_hint());
+                            let len = n.in_degree(); if len < yields && (len + yields) % 2 == 0 { let rest = it.count(); assert!(rest <= len, "count() = {} on an edge iterator whose list has {} entries (after {} yields)", rest, len, yields); break; } } }
                     IterKind::IntoIter => { for e in n { if !f(&e) { break; } } }
                 }
             }
@@ -762,7 +768,10 @@ macro_rules! undirected_flavour {
             }
             fn iterate(n: &Self::Node, kind: IterKind, f: &mut dyn FnMut(&Self::Edge) -> bool) {
                 match kind {
-                    IterKind::Out => { let mut it = n.iter(); check_hint(it.size_hint()); while let Some(e) = it.next() { if !f(&e) { break; } check_hint(it.size_hint()); } }
+                    IterKind::Out => { // (a loop whose list shrank below its position is finished with count(): no panic, nothing invented)
+                        let mut it = n.iter(); check_hint(it.size_hint()); let mut yields = 0usize;
+                        while let Some(e) = it.next() { yields += 1; if !f(&e) { break; } check_hint(it.size_hint());
+                            let len = n.degree(); if len < yields && (len + yields) % 2 == 0 { let rest = it.count(); assert!(rest <= len, "count() = {} on an edge iterator whose list has {} entries (after {} yields)", rest, len, yields); break; } } }
                     IterKind::In => {}
                     IterKind::IntoIter => { for e in n { if !f(&e) { break; } } }
                 }
